@@ -2,6 +2,7 @@
 from bpsa.normal import canon, accept_atoms, bool_atom, atom_vars, variant_atom
 from bpsa.terms import short, walk, TERM_IDX, T
 import copy
+import re
 
 
 def path_ctx(ctx, body, g_bb, guard_bbs, xf=None):
@@ -431,3 +432,49 @@ def bound_verdict(eng, cond, accept_when, is_value, is_bits):
     largest = (k - 1) if op == 'Lt' else k          # largest accepted value is 2^bits + largest
     return largest == -1, 'the largest accepted value is 2^bits%+d (documented: 2^bits - 1)' % largest
 
+
+
+def enum_variants(ctx, body, local):
+    """[(name, discriminant string)] of the crate-local enum that is the type of a parameter"""
+    ty = body.local_ty(local)
+    for path, a in ctx.facts.adts.items():
+        if a['kind'] == 'Enum' and re.search(r'(^|[^A-Za-z0-9_])%s($|[^A-Za-z0-9_])' % re.escape(path.split('::')[-1]), ty):
+            return [(x['name'], str(x['discr'])) for x in a['variants']]
+    return None
+
+
+def variants_under(ctx, body, pcs, local):
+    """The set of variants of the enum parameter `local` under which all of the given path conditions hold, decided over the finite
+    domain of the enum: (set of variant names, [conditions on the parameter that were not understood]).  Understood forms: a switch on
+    the discriminant (`match`, `matches!`, `if let`), and `==` / `!=` against a constant variant."""
+    from bpsa.terms import walk
+    vs = enum_variants(ctx, body, local)
+    if vs is None:
+        return None, ['not an enum']
+    allowed = {n for n, _ in vs}
+    unknown = []
+    for (sw, cond, arms, tg) in pcs:
+        if not any(x.tag == 'param' and x[1] == body.key and x[2] == local for x in walk(cond)):
+            continue
+        c = canon(cond)
+        if cond.tag == 'discr' and cond[1].tag == 'param' and cond[1][2] == local:
+            listed = {str(v) for v, _ in body.block[sw]['term']['arms']} if isinstance(sw, int) else set()
+            here = {n for n, d in vs if d in arms or ('otherwise' in arms and d not in listed)}
+            allowed &= here
+            continue
+        if cond.tag == 'binop' and cond[1] in ('Eq', 'Ne'):
+            named = [n for n, _ in vs if re.search(r'::%s\{\}' % n, c)]
+            sides = [x for x in (cond[2], cond[3])]
+            is_param = [x.tag == 'param' and x[1] == body.key and x[2] == local for x in sides]
+            if len(named) == 1 and any(is_param):
+                truth = None
+                if arms == ('otherwise',):
+                    truth = True
+                elif arms == ('0',):
+                    truth = False
+                if truth is not None:
+                    eq = (cond[1] == 'Eq') == truth
+                    allowed &= {named[0]} if eq else (allowed - {named[0]})
+                    continue
+        unknown.append(c)
+    return allowed, unknown
